@@ -168,6 +168,20 @@ def h_concrete(ctx, case):
         _wf_finite(ctx, case + '_svd', Zs, [4, 4, 4])
         Z0 = teneva.svd(np.zeros((3, 3, 3)), 1e-10)
         _wf_finite(ctx, case + '_svd_zero', Z0, [3, 3, 3])
+    elif case == 'svd_leading_modes_of_size_one':
+        # dense arrays (integer and float dtype) whose leading modes have size 1: every unfolding before
+        # the last core is a single row; the cores are three-dimensional FLOAT arrays all the same
+        ok = True
+        for arr in (np.array([[3, 1, 2]]), np.array([[[4, 0, 5, 1]]]), np.array([[7]]), np.array([[[1], [2]]]),
+                    np.array([[2.5, 1.]]), np.arange(6, dtype=np.int32).reshape(1, 2, 3), np.array([[1, 0, 1]], dtype=np.uint8)):
+            Z = teneva.svd(arr, 1e-10)
+            _wf_finite(ctx, case, Z, list(arr.shape))
+            ok = ok and all(G.dtype.kind == 'f' and G.ndim == 3 for G in Z)
+            ok = ok and bool(np.allclose(teneva.full(Z), arr.astype(float), atol=1e-12))
+            W = [G.copy() for G in Z]
+            W[-1] *= 0.5                       # (what a caller does next: scale the tensor in place)
+            ok = ok and bool(np.allclose(teneva.full(W), 0.5 * arr.astype(float), atol=1e-12))
+        ctx.claim(case + '_float_cores', bool(ok))
     elif case == 'cancelling_zero':
         # exactly zero tensors carried by cancelling non-zero cores (rank >= 2): the squared norm is rounding noise
         bad = 0
@@ -306,7 +320,7 @@ def instances(tier):
         out.append({'func': 'h_qtt', 'params': {'q': q, 'r': r}, 'opts': S})
     for dup in (False, True):
         out.append({'func': 'h_als_small', 'params': {'dup': dup}})
-    for case in ['cancelling_zero', 'cross_zero', 'cross_const', 'cross_d2_mode1', 'truncate_overranked', 'truncate_zero_generic',
+    for case in ['svd_leading_modes_of_size_one', 'cancelling_zero', 'cross_zero', 'cross_const', 'cross_d2_mode1', 'truncate_overranked', 'truncate_zero_generic',
                  'rank_deficient_generic', 'cross_growth_above_available_rows', 'cross_interrupted', 'orthogonalize_zero_rank1', 'als_constant_repeated', 'als_tiny_lamb', 'qtt_redundant_mode2', 'anova_constant',
                  'cheb_constant']:
         out.append({'func': 'h_concrete', 'params': {'case': case}, 'opts': {'concrete_only': True}})
